@@ -9,5 +9,15 @@ s = open(p).read()
 b, e = '<!-- BEGIN MATRIX -->', '<!-- END MATRIX -->'
 assert b in s and e in s
 s = s[:s.index(b) + len(b)] + '\n' + table + s[s.index(e):]
+# stage map (which stages decide which property), from lib/stages.py
+sys.path.insert(0, os.path.join(ROOT, 'lib'))
+import stages
+rows = ['| property | quick tier stages | additional stages in the thorough tier |', '|---|---|---|']
+for pid in sorted(stages.PROPS):
+    sp = stages.PROPS[pid]
+    rows.append(f"| {pid} | {', '.join(sp['stages'])} | {', '.join(sp.get('thorough_extra', [])) or '-'} |")
+b2, e2 = '<!-- BEGIN STAGEMAP -->', '<!-- END STAGEMAP -->'
+if b2 in s and e2 in s:
+    s = s[:s.index(b2) + len(b2)] + '\n' + '\n'.join(rows) + '\n' + s[s.index(e2):]
 open(p, 'w').write(s)
 print('matrix rows:', table.count('\n') - 2)
